@@ -161,9 +161,9 @@ class HostKeyTest:
 
                 # Do the initial DH exchange.  The server responds back
                 # with the host key and its length.  Bingo.  We also get back the host key fingerprint.
-                kex_group.send_init(s)
                 raw_hostkey_bytes = b''
                 try:
+                    kex_group.send_init(s)
                     kex_reply = kex_group.recv_reply(s)
                     raw_hostkey_bytes = kex_reply if kex_reply is not None else b''
                 except KexDHException:
